@@ -175,6 +175,10 @@ void bn_div_dig(bn_t c, const bn_t a, dig_t b) {
 
 		bn_copy(q, a);
 		bn_div1_low(q->dp, &r, (const dig_t *)a->dp, b, a->used);
+		if (bn_sign(a) == RLC_NEG && r != 0) {
+			/* Round towards minus infinity. */
+			bn_sub_dig(q, q, 1);
+		}
 		if (c != NULL) {
 			bn_copy(c, q);
 		}
@@ -214,16 +218,18 @@ void bn_div_rem_dig(bn_t c, dig_t *d, const bn_t a, dig_t b) {
 		bn_copy(q, a);
 		bn_div1_low(q->dp, &r, (const dig_t *)a->dp, b, a->used);
 
+		if (bn_sign(a) == RLC_NEG && r != 0) {
+			/* Round towards minus infinity, remainder in [0, b). */
+			bn_sub_dig(q, q, 1);
+			r = b - r;
+		}
+
 		if (c != NULL) {
 			bn_copy(c, q);
 		}
 
 		if (d != NULL) {
-			if (bn_sign(a) == RLC_NEG) {
-				*d = b - r;
-			} else {
-				*d = r;
-			}
+			*d = r;
 		}
 	}
 	RLC_CATCH_ANY {
